@@ -466,7 +466,7 @@ func c13Run(r *mc.Run) {
 	if r.Thorough() {
 		bound = 2
 	}
-	r.Rule = "full product key configuration(15: every non-empty subset of {encryption field, encryption setter, signing field, signing setter}, a distinct key per slot) x signature algorithm(6: unset, rsa-sha1/256/384/512, ecdsa-sha256 with a setter-supplied P-256 signer) x canonicaliser(8) x message kind(3) (logout kinds with SignAuthnRequests on and off; field key stores also as certificate chains and as a key store of a custom type), with <=1 (quick) / <=2 (thorough) of 12 configuration strings taken from a 16-value special-character alphabet; oracle = the recipient: re-parse from bytes, goxmldsig verification with exactly the reported certificate, declared algorithms, embedded certificate, placement after Issuer, metadata signing key; plus every operation sequence of <=4 (quick) / <=5 (thorough) steps over {SetSPKeyStore(key|nil), SetSPSigningKeyStore(key1|key2|nil), build of each kind} ending in a build, from two initial field configurations, replayed on a fresh instance: the last message must verify with the certificate the statement's rule picks from the setters in force at that moment (keys replaced after the instance has already signed). non-trivial = a signed document was produced and verified; distinct = distinct case"
+	r.Rule = "full product key configuration(15: every non-empty subset of {encryption field, encryption setter, signing field, signing setter}, a distinct key per slot) x signature algorithm(6: unset, rsa-sha1/256/384/512, ecdsa-sha256 with a setter-supplied P-256 signer) x canonicaliser(8) x message kind(3) (logout kinds with SignAuthnRequests on and off; field key stores also as certificate chains and as a key store of a custom type), with <=1 (quick) / <=2 (thorough) of 12 configuration strings taken from a 17-value special-character alphabet; oracle = the recipient: re-parse from bytes, goxmldsig verification with exactly the reported certificate, declared algorithms, embedded certificate, placement after Issuer, metadata signing key; plus every operation sequence of <=4 (quick) / <=5 (thorough) steps over {SetSPKeyStore(key|nil), SetSPSigningKeyStore(key1|key2|nil), build of each kind} ending in a build, from two initial field configurations, replayed on a fresh instance: the last message must verify with the certificate the statement's rule picks from the setters in force at that moment (keys replaced after the instance has already signed). non-trivial = a signed document was produced and verified; distinct = distinct case"
 	r.Assume("goxmldsig's validator as the recipient's verifier (trusted base)")
 	var cases []c13Case
 	nk := len(c13AllKeys())
